@@ -350,12 +350,28 @@ func (h *l2) proposeOne() error {
 
 func (h *l2) propose(n int) error {
 	for i := 0; i < n; i++ {
-		if err := h.proposeOne(); err != nil {
+		if err := h.proposeChecked(); err != nil {
 			return err
 		}
 		h.tail()
 	}
 	return nil
+}
+
+// proposeChecked tolerates requests the engine rejects before proposing them (validation of
+// keys/values nested in transactions is other properties' subject): with a single proposer an
+// unchanged applied index proves nothing entered the log, so the history simply goes on.
+func (h *l2) proposeChecked() error {
+	before, berr := h.applied()
+	err := h.proposeOne()
+	if err == nil {
+		return nil
+	}
+	if after, aerr := h.applied(); berr == nil && aerr == nil && after == before {
+		h.r.Count("l2_requests_rejected_without_proposal", 1)
+		return nil
+	}
+	return err
 }
 
 // tail is one poll of a tailing follower on the cached server: it asks for the index after the
@@ -524,7 +540,7 @@ func (h *l2) concurrentPhase() bool {
 	go func() {
 		var err error
 		for i := 0; i < 400 && err == nil && !stop.Load(); i++ {
-			if err = h.proposeOne(); err == nil {
+			if err = h.proposeChecked(); err == nil {
 				h.tail()
 			}
 		}
